@@ -28,6 +28,7 @@ LEVEL_TEXT = (
 )
 LEVEL_TEXT += ' Session 3: mixed-ploidy pipelines with a per-sample ploidy file.'
 LEVEL_TEXT += ' Session 4: pooled assemblies (named pool / pool file with a shared member), wide loci (130-200 SNVs), two samples per BAM, and the documented two-step workflow in which call / call-exact take assemble\'s INFO AFP as --prior-frequencies.'
+LEVEL_TEXT += ' Also: records read with a prior-frequency tag holding zeros (as --prior-frequencies does) and soft-masked lower-case stretches must round-trip exactly.'
 LEVEL_NOTE = "Trusts pysam's VCF reader (it is part of the product's input path) and the independent text parser in vlib/vcfparse.py."
 RULE = (
     "case = one generated haplotype record (function level) or one (dataset, program) pipeline run; non-trivial = record with >=1 ALT "
